@@ -9,6 +9,7 @@ import (
 	"google.golang.org/protobuf/encoding/protojson"
 	"google.golang.org/protobuf/proto"
 	"google.golang.org/protobuf/reflect/protoreflect"
+	"google.golang.org/protobuf/types/known/anypb"
 )
 
 // C18 (strict codecs): each codec decodes what it encodes (it pairs a marshaller and an unmarshaller of the same
@@ -124,4 +125,48 @@ func vRunNativeC18e(id byte) {
 	dj, errj := j.Marshal(src)
 	dstj := &conformancev1.Header{}
 	vAssert(errj == nil && j.Unmarshal(dj, dstj) == nil && dstj.Name == src.Name, "json codec: Unmarshal(Marshal(m)) succeeds and yields m")
+}
+
+// H18c: test-case form -> Connect form -> test-case form preserves code, message and every detail (type and bytes).
+func H18c_q() {
+	code := vInt("code", 1, 16)
+	msgs := [2]string{"", "boom"}
+	msg := msgs[vInt("msg", 0, 1)]
+	nd := vInt("ndetails", 0, 2)
+	var details []*anypb.Any
+	var urls [2]string
+	var lens [2]int
+	for i := 0; i < nd; i++ {
+		k := vIntAt("dtype", i, 2, 0, 1)
+		urls[i] = "type.googleapis.com/connectrpc.conformance.v1.Header"
+		if k == 1 {
+			urls[i] = "type.googleapis.com/google.protobuf.Empty"
+		}
+		lens[i] = vIntAt("dlen", i, 2, 0, 2) // zero-length values are legal (e.g. an empty message)
+		val := make([]byte, lens[i])
+		for j := 0; j < lens[i]; j++ {
+			val[j] = byte(10*i + j + 1)
+		}
+		details = append(details, &anypb.Any{TypeUrl: urls[i], Value: val})
+	}
+	in := &conformancev1.Error{Code: conformancev1.Code(code), Message: &msg, Details: details}
+	ce := ConvertProtoToConnectError(in)
+	vAssert(ce != nil, "a non-nil error converts to a non-nil Connect error")
+	out := ConvertConnectToProtoError(ce)
+	vAssert(out != nil && int(out.Code) == code && out.GetMessage() == msg, "code and message survive the round trip")
+	vAssert(len(out.Details) == nd, "every detail survives the round trip")
+	for i := 0; i < 2; i++ {
+		if i < nd && i < len(out.Details) {
+			d := out.Details[i]
+			vAssert(d.TypeUrl == urls[i], "detail type survives, with the default type-URL prefix restored")
+			ok := len(d.Value) == lens[i]
+			for j := 0; j < lens[i] && j < len(d.Value); j++ {
+				if d.Value[j] != byte(10*i+j+1) {
+					ok = false
+				}
+			}
+			vAssert(ok, "detail bytes survive, in order")
+		}
+	}
+	vAssert(ConvertProtoToConnectError(nil) == nil && ConvertConnectToProtoError(nil) == nil, "nil converts to nil")
 }
